@@ -141,9 +141,10 @@ class _StatePointDict(JSONAttrDict):
                     # rejected value would silently be applied by the next edit.
                     # (Start from an empty mapping: an in-place update keeps values
                     # that merely compare equal, e.g. 1.0 instead of 1.)
+                    restored = self._load_from_resource()
                     with self._suspend_sync:
                         self._data = {}
-                        self._update(self._load_from_resource(), _validate=False)
+                        self._update(restored, _validate=False)
                     raise DestinationExistsError(new_id)
                 else:
                     raise
